@@ -44,6 +44,11 @@ type pxOp struct {
 	Expr *pxExpr   `json:"expr,omitempty"`
 	Pi   int       `json:"pi,omitempty"`
 	Res  *pxResult `json:"res,omitempty"`
+	// position of Res in the stream of a protocol run: when the world has a
+	// live source (c08live.go) the *benchfmt.Result projected is the source's
+	// own, mutated in place from one position to the next, not a fresh copy
+	live bool
+	si   int
 }
 
 var pxBare = regexp.MustCompile(`^[A-Za-z0-9_./=]+$`)
@@ -143,6 +148,28 @@ type pxWorld struct {
 	nums   []map[benchproc.Key]int
 	keys   [][]benchproc.Key
 	outs   []hx.Sx
+	src    pxSource // nil: every operation projects a freshly built Result
+	srcErr error    // the live source disagreed with the stream shipped to the model (harness bug)
+}
+
+// result gives the *benchfmt.Result an operation projects.
+func (w *pxWorld) result(op pxOp) *benchfmt.Result {
+	if w.src == nil || !op.live {
+		return pxMkResult(op.Res)
+	}
+	res, err := w.src.at(op.si)
+	if err == nil {
+		if got, want := pxSnapshot(res), *op.Res; !pxSameResult(got, want) {
+			err = fmt.Errorf("live source at %d holds %+v, the stream says %+v", op.si, got, want)
+		}
+	}
+	if err != nil {
+		if w.srcErr == nil {
+			w.srcErr = err
+		}
+		return pxMkResult(op.Res)
+	}
+	return res
 }
 
 func pxNewWorld() (*pxWorld, error) {
@@ -189,10 +216,10 @@ func (w *pxWorld) do(op pxOp) {
 		w.addProj(w.pp.Residue())
 		w.outs = append(w.outs, hx.L())
 	case 2:
-		k := w.projs[op.Pi].Project(pxMkResult(op.Res))
+		k := w.projs[op.Pi].Project(w.result(op))
 		w.outs = append(w.outs, hx.L(hx.I(w.num(op.Pi, k))))
 	case 3:
-		ks := w.projs[op.Pi].ProjectValues(pxMkResult(op.Res))
+		ks := w.projs[op.Pi].ProjectValues(w.result(op))
 		var ids []hx.Sx
 		for _, k := range ks {
 			ids = append(ids, hx.I(w.num(op.Pi, k)))
@@ -215,6 +242,12 @@ func pxInts(xs []int) hx.Sx {
 func (w *pxWorld) observe(pi int, r *hx.Rng, sortObs bool, vals map[string]bool) hx.Sx {
 	p := w.projs[pi]
 	keys := w.keys[pi]
+	// Key.String before the harness itself asks for FlattenedFields, so that a
+	// String relying on somebody else having refreshed the flattened fields shows
+	strs := make([]string, len(keys))
+	for i, k := range keys {
+		strs[i] = k.String()
+	}
 	var fields []hx.Sx
 	for _, f := range p.Fields() {
 		var subs []string
@@ -231,7 +264,7 @@ func (w *pxWorld) observe(pi int, r *hx.Rng, sortObs bool, vals map[string]bool)
 		flatNames = append(flatNames, f.Name)
 	}
 	var ks []hx.Sx
-	for _, k := range keys {
+	for i, k := range keys {
 		var gets []string
 		for _, f := range flat {
 			v := k.Get(f)
@@ -240,7 +273,7 @@ func (w *pxWorld) observe(pi int, r *hx.Rng, sortObs bool, vals map[string]bool)
 				vals[v] = true
 			}
 		}
-		ks = append(ks, hx.L(hx.SList(gets), hx.S(k.String())))
+		ks = append(ks, hx.L(hx.SList(gets), hx.S(strs[i])))
 	}
 	var ns []hx.Sx
 	if len(keys) > 0 {
@@ -368,6 +401,7 @@ type pxProtoInput struct {
 	Exprs  []*pxExpr  `json:"exprs"`
 	Stream []pxResult `json:"stream"`
 	Perms  [][]int    `json:"perms"`
+	Source *pxSrcSpec `json:"source,omitempty"` // how the stream reaches the code when not as fresh Results
 }
 
 type pxFreeInput struct {
@@ -389,15 +423,22 @@ func pxProtoOps(exprs []*pxExpr, stream []pxResult, perm []int) []pxOp {
 			if x.Unit {
 				k = 3
 			}
-			ops = append(ops, pxOp{Kind: k, Pi: last[e], Res: &stream[i]})
+			ops = append(ops, pxOp{Kind: k, Pi: last[e], Res: &stream[i], live: true, si: i})
 		}
-		ops = append(ops, pxOp{Kind: 2, Pi: len(perm), Res: &stream[i]})
+		ops = append(ops, pxOp{Kind: 2, Pi: len(perm), Res: &stream[i], live: true, si: i})
 	}
 	return ops
 }
 
 // pxRun runs ops on a fresh world; a panic of the real code becomes data.
 func pxRun(ops []pxOp, r *hx.Rng, sortObs bool, vals map[string]bool) (outs, obs hx.Sx, panicked string) {
+	outs, obs, panicked, _ = pxRunSrc(ops, r, sortObs, vals, nil)
+	return
+}
+
+// pxRunSrc: as pxRun, the results of a protocol run coming from a live source
+// (a fresh one per run) when spec is not nil.
+func pxRunSrc(ops []pxOp, r *hx.Rng, sortObs bool, vals map[string]bool, spec *pxSrcSpec) (outs, obs hx.Sx, panicked string, srcErr error) {
 	defer func() {
 		if e := recover(); e != nil {
 			panicked = fmt.Sprint(e)
@@ -407,13 +448,23 @@ func pxRun(ops []pxOp, r *hx.Rng, sortObs bool, vals map[string]bool) (outs, obs
 	if err != nil {
 		panic(err)
 	}
+	if spec != nil {
+		w.src = spec.open()
+	}
 	for _, op := range ops {
 		w.do(op)
 	}
-	return hx.List(w.outs), w.observeAll(r, sortObs, vals), ""
+	return hx.List(w.outs), w.observeAll(r, sortObs, vals), "", w.srcErr
 }
 
 func pxProtoCase(o *hx.Out, r *hx.Rng, exprs []*pxExpr, stream []pxResult, perms [][]int, sortObs bool, tags ...string) error {
+	return pxProtoCaseSrc(o, r, exprs, stream, perms, sortObs, nil, tags...)
+}
+
+// pxProtoCaseSrc: a protocol case whose results are handed to the code by the
+// live source src (nil: fresh Results); the model and the specification
+// predicates get the stream of snapshots either way.
+func pxProtoCaseSrc(o *hx.Out, r *hx.Rng, exprs []*pxExpr, stream []pxResult, perms [][]int, sortObs bool, src *pxSrcSpec, tags ...string) error {
 	for _, e := range exprs {
 		if err := pxCheckText(e); err != nil {
 			return err
@@ -424,9 +475,12 @@ func pxProtoCase(o *hx.Out, r *hx.Rng, exprs []*pxExpr, stream []pxResult, perms
 		vals = map[string]bool{"": true}
 	}
 	var runs []hx.Sx
-	in := pxProtoInput{Kind: "proto", Exprs: exprs, Stream: stream, Perms: perms}
+	in := pxProtoInput{Kind: "proto", Exprs: exprs, Stream: stream, Perms: perms, Source: src}
 	for _, perm := range perms {
-		outs, obs, pan := pxRun(pxProtoOps(exprs, stream, perm), r, sortObs, vals)
+		outs, obs, pan, srcErr := pxRunSrc(pxProtoOps(exprs, stream, perm), r, sortObs, vals, src)
+		if srcErr != nil {
+			return srcErr
+		}
 		if pan != "" {
 			o.Count("panic")
 			o.Add(hx.L(hx.I(9), hx.S(pan)), in, fmt.Sprint(len(o.Dist), o.Len()), true, append(tags, "panic")...)
@@ -811,7 +865,7 @@ func (pl *pxPools) freeOps(r *hx.Rng, n int) ([]pxOp, error) {
 }
 
 func genC08(o *hx.Out, r *hx.Rng, tier string, replay string) error {
-	o.Rule = "one ProjectionParser per run. proto cases: 2-5 projection expressions (.config, .fullname, .name, /k, plain keys; orders first/alpha/num/fixed lists; some with .unit) parsed in every order (all permutations up to 5 expressions = 120) or in a few orders including repeated Parse calls, then Residue, then a stream of 5-60 results over a growing set of config keys (file/internal, empty values), sub-name keys (duplicates, bare prefixes), gomaxprocs suffixes and units, every result projected through every projection and the residue. free cases: random interleavings of Parse (valid and failing), Residue (also repeated), Project and ProjectValues. In all streams about a tenth of the results have NO values (ProjectValues returns no Key), results recur, and new tuples over only the oldest config keys appear late and are projected 2-3 times. zero-values family: a ParseWithUnit projection holding .config, a result without values that brings 1-2 unseen config keys (also twice in a row), then results lacking those keys, the keys again with values; grow family: .config projections, the field set grown key by key, then new tuples over the 0-2 oldest keys projected repeatedly, more growth, the same tuples again; gomaxprocs family: /gomaxprocs and /size (or /a) with .fullname explicit or via Residue, fields shuffled and cut into 1-3 expressions, every parse order, on names spelling GOMAXPROCS as -N and as /gomaxprocs=N (X-8 next to X/gomaxprocs=8, X/size=1-8 next to X/size=1/gomaxprocs=8). non-trivial = every case; distinct by expression texts and stream"
+	o.Rule = "one ProjectionParser per run. proto cases: 2-5 projection expressions (.config, .fullname, .name, /k, plain keys; orders first/alpha/num/fixed lists; some with .unit) parsed in every order (all permutations up to 5 expressions = 120) or in a few orders including repeated Parse calls, then Residue, then a stream of 5-60 results over a growing set of config keys (file/internal, empty values), sub-name keys (duplicates, bare prefixes), gomaxprocs suffixes and units, every result projected through every projection and the residue. free cases: random interleavings of Parse (valid and failing), Residue (also repeated), Project and ProjectValues. In all streams about a tenth of the results have NO values (ProjectValues returns no Key), results recur, and new tuples over only the oldest config keys appear late and are projected 2-3 times. zero-values family: a ParseWithUnit projection holding .config, a result without values that brings 1-2 unseen config keys (also twice in a row), then results lacking those keys, the keys again with values; grow family: .config projections, the field set grown key by key, then new tuples over the 0-2 oldest keys projected repeatedly, more growth, the same tuples again; gomaxprocs family: /gomaxprocs and /size (or /a) with .fullname explicit or via Residue, fields shuffled and cut into 1-3 expressions, every parse order, on names spelling GOMAXPROCS as -N and as /gomaxprocs=N (X-8 next to X/gomaxprocs=8, X/size=1-8 next to X/size=1/gomaxprocs=8) and on 3-8 names per case whose last part or base name has a hyphen that is NOT a GOMAXPROCS suffix (RW/gomaxprocs=4/mode=read-only, Foo-bar, a-1x, x-, x--8, X/size=1-8x, ... alone, next to /gomaxprocs=N and next to a genuine -N); live families (the code is handed ONE Result mutated in place, the model the snapshot taken at each call): reader family = a benchmark file of 6-18 results read by benchfmt.Reader and projected WITHOUT Clone, between consecutive results mostly one file key changing to another value of the same byte length (goarch amd64->arm64; the Reader overwrites the bytes), also other lengths, deletions (key:), new keys, repeated results; edit family = a struct-literal Result whose cfg.Value bytes are overwritten in place (copy / append(v[:0],...)), SetConfig (internal, delete), name and values rewritten in their buffers; both through .config alone / .config,.fullname / a single file key (+residue) / .config with .unit / .fullname (residue = .config alone); config-only family: a projection consisting of the .config group alone (.config, or the residue when .fullname is taken, also minus an individually projected key, also with .unit) whose first one or two results carry no file configuration at all (none, internal keys only, only the individually projected key), keys then arriving one by one as PAIRS of results differing in that key only, the empty configuration again after the growth; prefix-key family: an individually projected (or additionally parsed = ignored) sub-name key that is a proper prefix of another sub-name key present in the names (/size vs /sizeclass, /n vs /nodes, /a vs /ab, /gomaxprocs vs /gomaxprocsx, /b vs /b.c; either one excluded), .fullname explicit or via Residue, names with both keys in both orders, pairs differing only in the longer key. non-trivial = every case; distinct by expression texts and stream"
 	pl := &c08Pools
 	mul := 1
 	if tier == "thorough" {
@@ -856,6 +910,21 @@ func genC08(o *hx.Out, r *hx.Rng, tier string, replay string) error {
 			return err
 		}
 		if err := c08Gomax(o, r, pl); err != nil {
+			return err
+		}
+	}
+	// round-3 gap classes (c08live.go, c08gaps3.go)
+	for i := 0; i < 50*mul; i++ {
+		if err := c08Reader(o, r, pl); err != nil {
+			return err
+		}
+		if err := c08Edit(o, r, pl); err != nil {
+			return err
+		}
+		if err := c08CfgOnly(o, r, pl, false); err != nil {
+			return err
+		}
+		if err := c08Prefix(o, r, pl); err != nil {
 			return err
 		}
 	}
